@@ -441,6 +441,43 @@ fn c17_q_clamp_laws_f32() { float_clamp_laws!(f32) }
 #[kani::proof]
 fn c17_q_clamp_laws_f64() { float_clamp_laws!(f64) }
 
+macro_rules! float_nan_value_laws {
+    ($F:ty) => {{
+        let (v, l, u): ($F, $F, $F) = (kani::any(), kani::any(), kani::any());
+        kani::assume(!l.is_nan() && !u.is_nan() && l <= u);
+        kani::cover!(v.is_nan(), "NaN value");
+        kani::cover!(v.is_infinite() && l.is_infinite(), "infinite value and bound");
+        let b = v.is_between(l, u);
+        let r = v.clamped(l, u);
+        // a NaN is a member of no interval; the range test is the chained comparison for every value
+        assert!(b == (l <= v && v <= u));
+        assert!(b == (r == v));
+        // whatever the value, the clamped result is a member of [lower, upper]
+        assert!(l <= r && r <= u);
+        assert!(v.is_between01() == (0.0 <= v && v <= 1.0));
+    }};
+}
+/// K: fns=Clamp::clamped,IsBetween::is_between,IsBetween::is_between01 | inst=f32 | bound=every value including NaN and the infinities; bounds non-NaN with lower<=upper
+/// K: asserts=is_between is the chained comparison lower<=v<=upper (so a NaN value is in no interval), agrees with clamped==self, and the clamped result always lies in [lower, upper]
+#[kani::proof]
+fn c17_q_clamp_nan_value_f32() { float_nan_value_laws!(f32) }
+/// K: fns=Clamp::clamped,IsBetween::is_between,IsBetween::is_between01 | inst=f64 | bound=every value including NaN and the infinities; bounds non-NaN with lower<=upper
+/// K: asserts=is_between is the chained comparison lower<=v<=upper (so a NaN value is in no interval), agrees with clamped==self, and the clamped result always lies in [lower, upper]
+#[kani::proof]
+fn c17_q_clamp_nan_value_f64() { float_nan_value_laws!(f64) }
+/// K: fns=Clamp::clamped,IsBetween::is_between | inst=f32 | bound=all triples in which a bound is NaN
+/// K: asserts=the call never returns: a NaN bound is not ordered, which is the documented panic | panics=assertion failed: lower <= upper
+#[kani::proof]
+#[kani::should_panic]
+fn c17_q_float_clamp_panics_on_nan_bound() {
+    let (v, l, u): (f32, f32, f32) = (kani::any(), kani::any(), kani::any());
+    kani::assume(l.is_nan() || u.is_nan());
+    kani::cover!(l.is_nan() && !u.is_nan());
+    let which: bool = kani::any();
+    if which { let _ = v.clamped(l, u); } else { let _ = v.is_between(l, u); }
+    panic!("K-NOPANIC: returned normally although a bound is NaN");
+}
+
 /// K: fns=Clamp::clamped,IsBetween::is_between | inst=f32,f64 | bound=all non-NaN triples with lower>upper
 /// K: asserts=the call never returns (documented panic) | panics=assertion failed: lower <= upper
 #[kani::proof]
